@@ -236,6 +236,9 @@ def joinMap {α : Type} (sep : Str) (f : α → Str) (xs : List α) : Str := str
 that `Gen/C03.lean` always compiles — the driver then disagrees with the real hash and nothing can be proved about it -/
 opaque unmodelledStr (src : String) : Str
 
+/-- the same for a list-valued local (`[]string`) assigned by a statement the translator does not model -/
+opaque unmodelledList (src : String) : List Str
+
 /-! ## strconv -/
 
 def strconv_FormatUint (n : Nat) (base : Nat) : Str := Nat.toDigits base n
